@@ -34,6 +34,18 @@ theorem ps_spec (c : TCtx) (n : Net) (m : Mem) (href : c.hasRef = true) (hdg : c
     · simp [hm, hex, selOf_getD]
   · simp [hex] at herr
 
+/-- the run-time oracle `patchMeansPinned` holds of the model's `PatchStableService`, for every context, network state and memory -/
+theorem patch_means_pinned (c : TCtx) (n : Net) (m : Mem) :
+    RV.Oracle.Traffic.patchMeansPinned c (patchStableService c n m) = true := by
+  unfold RV.Oracle.Traffic.patchMeansPinned
+  by_cases h : (c.hasRef && !c.disableGen && !(patchStableService c n m).err) = true
+  · simp only [Bool.and_eq_true, Bool.not_eq_true'] at h
+    obtain ⟨⟨href, hdg⟩, herr⟩ := h
+    obtain ⟨h1, h2⟩ := ps_spec c n m href hdg herr
+    simp [href, hdg, herr, h1, h2]
+  · simp only [Bool.not_eq_true] at h
+    simp [h]
+
 theorem trCtx_fields (ro : Rollout) (s : Sub) (t : TCtx) (h : trCtx ro s = some t) :
     t.hasRef = ro.hasTraffic ∧ t.disableGen = ro.disableGen ∧ t.stableRev = s.stableRev := by
   unfold trCtx at h
